@@ -4,7 +4,8 @@
      regexp ::= branch ( '|' branch )*        branch ::= ( run | group | qchar | dot )*
      group  ::= '(' regexp ')' | '(?:' regexp ')'      run ::= ordinary characters
      qchar  ::= ordinary character ( '?' | '*' | '+' | '{n}' | '{n,}' | '{n,m}' ) [ '?' ]
-     dot    ::= '.' [ ( '?' | '*' | '+' | '{n}' | '{n,}' | '{n,m}' ) [ '?' ] ]     (flag s decides what it matches)
+     dot    ::= ( '.' | '\\s' | '\\S' | '\\i' | '\\I' | '\\c' | '\\C' | '\\d' | '\\D' | '\\w' | '\\W' ) [ ( '?' | '*' | '+' | '{n}' | '{n,}' | '{n,m}' ) [ '?' ] ]
+            (flag s decides what the dot matches; the class escapes are the sets of Proofs/EscFacts.v)
    and, under XPath, the anchors '^' and '$' as pieces of a branch.
 
    Grammar trees [branch] / [alt] are printed to pattern text by [show_b] / [show_a]; they have a
@@ -14,7 +15,7 @@
    Proofs/GroupSpec.v proves the same of the specification's parser and semantics, and joins them. *)
 From RX Require Import Base.Prelude Base.InvList Tables.Consts Model.Case Model.Op Model.Engine Model.Matcher
      Model.Compiler Spec.Syntax Spec.Sem Proofs.EngineFacts Proofs.LowerFacts Proofs.QuantLaws Proofs.FixedFacts Proofs.OrderFacts Proofs.OrderFixed
-     Proofs.PlainPattern Proofs.FrameFacts Proofs.InvListFacts Proofs.SmallFacts.
+     Proofs.PlainPattern Proofs.FrameFacts Proofs.InvListFacts Proofs.SmallFacts Proofs.EscFacts.
 
 (* ---------------------------------------------------------------- grammar trees *)
 (* a counted quantifier {n}, {n,} or {n,m}: the bounds as they are written, in decimal digits *)
@@ -43,12 +44,17 @@ Definition okq (k : qk) : bool :=
   | _ => true
   end.
 
+(* a one-character atom that is a class: the dot, or one of \s \S \i \I \c \C \d \D \w \W (by its letter) *)
+Inductive datom := ADot | AE (e : N).
+Definition okat (a : datom) : bool := match a with ADot => true | AE e => okesc e end.
+Definition datext (a : datom) : list N := match a with ADot => [46%N] | AE e => [92%N; e] end.
+
 Inductive branch :=
 | BEnd (cs : list N)                                   (* a final run, possibly empty *)
 | BGrp (cs : list N) (cap : bool) (a : alt) (b : branch)   (* a run, possibly empty, a group, the rest *)
 | BQ (cs : list N) (c : N) (k : qk) (rel : bool) (b : branch)   (* a run, a quantified character, the rest *)
 | BAn (cs : list N) (eol : bool) (b : branch)               (* a run, '^' or '$' (XPath), the rest *)
-| BD (cs : list N) (q : option (qk * bool)) (b : branch)    (* a run, '.', possibly quantified (kind, reluctant?), the rest *)
+| BD (cs : list N) (da : datom) (q : option (qk * bool)) (b : branch)   (* a run, '.' or a class escape, possibly quantified (kind, reluctant?), the rest *)
 with alt :=
 | AOne (b : branch)
 | ACons (b : branch) (a : alt).
@@ -66,7 +72,7 @@ Fixpoint show_b (b : branch) : list N :=
   | BGrp cs cap a b' => cs ++ 40%N :: (if cap then [] else [63%N; 58%N]) ++ show_a a ++ 41%N :: show_b b'
   | BQ cs c k rel b' => cs ++ c :: qsym k :: qtl k ++ (if rel then [63%N] else []) ++ show_b b'
   | BAn cs eol b' => cs ++ (if eol then 36%N else 94%N) :: show_b b'
-  | BD cs q b' => cs ++ 46%N :: qtext q ++ show_b b'
+  | BD cs da q b' => cs ++ datext da ++ qtext q ++ show_b b'
   end
 with show_a (a : alt) : list N :=
   match a with
@@ -84,7 +90,7 @@ Fixpoint ok_b (xpath : bool) (b : branch) : bool :=
   | BGrp cs cap a b' => forallb ordinary cs && (cap || xpath) && ok_a xpath a && ok_b xpath b'
   | BQ cs c k rel b' => forallb ordinary cs && ordinary c && (negb rel || xpath) && okq k && ok_b xpath b'
   | BAn cs eol b' => forallb ordinary cs && xpath && ok_b xpath b'
-  | BD cs q b' => forallb ordinary cs && okqq xpath q && ok_b xpath b'
+  | BD cs da q b' => forallb ordinary cs && okat da && okqq xpath q && ok_b xpath b'
   end
 with ok_a (xpath : bool) (a : alt) : bool :=
   match a with
@@ -141,21 +147,21 @@ Definition term_a (post : list N) : Prop := post = [] \/ exists t, post = 41%N :
 Definition head_fine (l : list N) : Prop :=
   match l with
   | [] => True
-  | c :: _ => ordinary c = true \/ c = 40%N \/ c = 41%N \/ c = 124%N \/ c = 94%N \/ c = 36%N \/ c = 46%N
+  | c :: _ => ordinary c = true \/ c = 40%N \/ c = 41%N \/ c = 124%N \/ c = 94%N \/ c = 36%N \/ c = 46%N \/ c = 92%N
   end.
 
 (* ... in particular *)
 Lemma head_fine_nq c t : head_fine (c :: t) ->
   (c =? 63 = false /\ c =? 42 = false /\ c =? 43 = false /\ c =? 123 = false)%N.
 Proof.
-  cbn. intros [Ho|[->|[->|[->|[->|[->| ->]]]]]]; try (repeat split; reflexivity).
+  cbn. intros [Ho|[->|[->|[->|[->|[->|[->| ->]]]]]]]; try (repeat split; reflexivity).
   destruct (ordinary_tests c Ho) as (_ & _ & _ & _ & _ & T6 & _ & _ & _ & _ & _ & T12 & T13 & T14).
   cbv delta [c_lbrace c_qmark c_star c_plus] in *. auto.
 Qed.
 
 Lemma head_fine_b xpath b post : ok_b xpath b = true -> term_b post -> head_fine (show_b b ++ post).
 Proof.
-  intros Hok Ht. destruct b as [cs|cs cap a b'|cs c0 k rel b'|cs eol b'|cs q b']; cbn [show_b ok_b] in *.
+  intros Hok Ht. destruct b as [cs|cs cap a b'|cs c0 k rel b'|cs eol b'|cs da q b']; cbn [show_b ok_b] in *.
   - destruct cs as [|c t]; cbn [app].
     + destruct Ht as [->|(t & [->| ->])]; cbn; auto.
     + cbn [forallb] in Hok. apply andb_true_iff in Hok as [Hc _]. cbn. auto.
@@ -165,7 +171,7 @@ Proof.
     cbn [forallb] in Hok. apply andb_true_iff in Hok as [Hc _]. cbn. auto.
   - do 2 (apply andb_true_iff in Hok as [Hok ?]). destruct cs as [|c t]; cbn [app]; [destruct eol; cbn; auto 10|].
     cbn [forallb] in Hok. apply andb_true_iff in Hok as [Hc _]. cbn. auto.
-  - do 2 (apply andb_true_iff in Hok as [Hok ?]). destruct cs as [|c t]; cbn [app]; [cbn; auto 10|].
+  - do 3 (apply andb_true_iff in Hok as [Hok ?]). destruct cs as [|c t]; cbn [app]; [destruct da; cbn; auto 10|].
     cbn [forallb] in Hok. apply andb_true_iff in Hok as [Hc _]. cbn. auto.
 Qed.
 
@@ -178,6 +184,8 @@ Proof.
 Qed.
 
 (* ---------------------------------------------------------------- denotation *)
+Definition da_re (da : datom) : re := match da with ADot => RDot | AE e => REsc (esc_of e) end.
+
 Section Den.
 Variable input : list N.
 Variable ci multi single : bool.
@@ -193,9 +201,9 @@ Definition Dq (c : N) (k : qk) (rel : bool) (p : nat) : list nat :=
   ends fl_of input (RQuant (RChar c) (qmin k) (qmaxo k) (negb rel)) p.
 
 (* the regular expression a (possibly quantified) dot stands for; its meaning is the specification's (flag s) *)
-Definition dot_re (q : option (qk * bool)) : re :=
-  match q with Some (k, rel) => RQuant RDot (qmin k) (qmaxo k) (negb rel) | None => RDot end.
-Definition Dd (q : option (qk * bool)) (p : nat) : list nat := ends fl_of input (dot_re q) p.
+Definition dot_re (da : datom) (q : option (qk * bool)) : re :=
+  match q with Some (k, rel) => RQuant (da_re da) (qmin k) (qmaxo k) (negb rel) | None => da_re da end.
+Definition Dd (da : datom) (q : option (qk * bool)) (p : nat) : list nat := ends fl_of input (dot_re da q) p.
 
 (* an anchor holds where the specification says it does (flag m) *)
 Definition Dan (eol : bool) (p : nat) : list nat := ends fl_of input (if eol then REol else RBol) p.
@@ -206,7 +214,7 @@ Fixpoint Db (b : branch) (p : nat) : list nat :=
   | BGrp cs cap a b' => flat_map (Db b') (flat_map (Da a) (lit cs p))
   | BQ cs c k rel b' => flat_map (Db b') (flat_map (Dq c k rel) (lit cs p))
   | BAn cs eol b' => flat_map (Db b') (flat_map (Dan eol) (lit cs p))
-  | BD cs q b' => flat_map (Db b') (flat_map (Dd q) (lit cs p))
+  | BD cs da q b' => flat_map (Db b') (flat_map (Dd da q) (lit cs p))
   end
 with Da (a : alt) (p : nat) : list nat :=
   match a with
@@ -220,14 +228,14 @@ Definition DqO (c : N) (k : qk) (rel : bool) (p : nat) : list nat :=
   map fst (Sem.R fl_of input (RQuant (RChar c) (qmin k) (qmaxo k) (negb rel)) p []).
 Definition DanO (eol : bool) (p : nat) : list nat :=
   map fst (Sem.R fl_of input (if eol then REol else RBol) p []).
-Definition DdO (q : option (qk * bool)) (p : nat) : list nat := map fst (Sem.R fl_of input (dot_re q) p []).
+Definition DdO (da : datom) (q : option (qk * bool)) (p : nat) : list nat := map fst (Sem.R fl_of input (dot_re da q) p []).
 Fixpoint DbO (b : branch) (p : nat) : list nat :=
   match b with
   | BEnd cs => lit cs p
   | BGrp cs cap a b' => flat_map (DbO b') (flat_map (DaO a) (lit cs p))
   | BQ cs c k rel b' => flat_map (DbO b') (flat_map (DqO c k rel) (lit cs p))
   | BAn cs eol b' => flat_map (DbO b') (flat_map (DanO eol) (lit cs p))
-  | BD cs q b' => flat_map (DbO b') (flat_map (DdO q) (lit cs p))
+  | BD cs da q b' => flat_map (DbO b') (flat_map (DdO da q) (lit cs p))
   end
 with DaO (a : alt) (p : nat) : list nat :=
   match a with
@@ -254,16 +262,16 @@ Lemma Dan_le eol p q : p <= n -> In q (Dan eol p) -> q <= n.
 Proof.
   intros Hp H. unfold Dan in H. eapply (ends_le fl_of input); [|exact Hp|exact H]. destruct eol; exact I.
 Qed.
-Lemma Dd_le xpath q p m : okqq xpath q = true -> p <= n -> In m (Dd q p) -> m <= n.
+Lemma Dd_le xpath da q p m : okqq xpath q = true -> p <= n -> In m (Dd da q p) -> m <= n.
 Proof.
   intros Hk Hp H. unfold Dd in H. eapply (ends_le fl_of input); [|exact Hp|exact H].
-  destruct q as [[k rel]|]; cbn [dot_re quant_wf]; [|exact I]. split; [exact I|].
+  destruct q as [[k rel]|]; cbn [dot_re quant_wf]; [|destruct da; exact I]. split; [destruct da; exact I|].
   cbn [okqq] in Hk. apply andb_true_iff in Hk as [_ Hk]. apply (okq_facts k Hk).
 Qed.
 End Den.
 
-(* an input is a string of code points (what a Rust &str holds) *)
-Definition valid_in (input : list N) : Prop := forall c, In c input -> (c <= max_cp)%N.
+(* an input is a string of Unicode scalar values (what a Rust &str holds) *)
+Definition valid_in (input : list N) : Prop := forall c, In c input -> is_scalar c = true.
 Lemma valid_nil : valid_in [].
 Proof. intros c []. Qed.
 
@@ -315,15 +323,29 @@ Qed.
 Lemma is_at_hd i c t x : skipn i pat = c :: t -> is_at pat i x = (c =? x)%N.
 Proof. intros H. unfold is_at. rewrite at_skipn, H. reflexivity. Qed.
 
+(* escape() on a class escape *)
+Lemma escape_class st e t : okesc e = true -> skipn (idx st) pat = 92%N :: e :: t ->
+  escape pat xpath false st = Ok (ESet (esc_set e), adv 2 st).
+Proof.
+  intros He Hs. destruct (skipn_step _ _ _ Hs) as [Hs1 Hlt]. destruct (skipn_step _ _ _ Hs1) as [_ Hlt1].
+  unfold escape. fold len. rewrite (at_skipn (idx st)), Hs. cbn [hd_error]. change (92 =? c_bslash)%N with true. cbn [negb].
+  replace (Nat.leb len (idx st + 1)) with false by (symmetry; apply Nat.leb_gt; clear - Hlt1; lia).
+  rewrite (at_skipn (idx st + 1)), Hs1. cbn [hd_error].
+  destruct (okesc_cases e He) as [->|[->|[->|[->|[->|[->|[->|[->|[->| ->]]]]]]]]]; reflexivity.
+Qed.
+
 (* --- the atom scanner over a run of ordinary characters --- *)
+(* where a run ends: at a character the scanner stops at, or at a class escape *)
+Definition pstop (c : N) : Prop := c = 40%N \/ c = 41%N \/ c = 124%N \/ c = 46%N \/ (xpath = true /\ (c = 94%N \/ c = 36%N)).
+Definition estop (l : list N) : Prop := exists e t, l = 92%N :: e :: t /\ okesc e = true.
 Definition stops (l : list N) : Prop :=
   match l with
   | [] => True
-  | c :: _ => c = 40%N \/ c = 41%N \/ c = 124%N \/ c = 46%N \/ (xpath = true /\ (c = 94%N \/ c = 36%N))
+  | c :: t => pstop c \/ estop (c :: t)
   end.
 
 (* what the scanner does at such a character *)
-Lemma stops_tests c t : stops (c :: t) ->
+Lemma stops_tests c : pstop c ->
   (c =? c_bslash)%N = false
   /\ forall (A : Type) (x y z w v : A),
        (if ((c =? c_rbrack) || (c =? c_dot) || (c =? c_lbrack) || (c =? c_lparen) || (c =? c_rparen) || (c =? c_bar))%N then x
@@ -333,7 +355,7 @@ Lemma stops_tests c t : stops (c :: t) ->
         else if (((c =? c_caret) || (c =? c_dollar)) && xpath)%N then x
         else v) = x.
 Proof.
-  cbn. intros [->|[->|[->|[->|(Hx & [->| ->])]]]]; (split; [reflexivity|]); intros A x y z w v; try reflexivity;
+  unfold pstop. intros [->|[->|[->|[->|(Hx & [->| ->])]]]]; (split; [reflexivity|]); intros A x y z w v; try reflexivity;
     rewrite Hx; reflexivity.
 Qed.
 
@@ -342,10 +364,28 @@ Lemma atom_loop_run : forall cs fuel st ub post, forallb ordinary cs = true -> s
   atom_loop pat xpath fuel st ub = Ok (rev cs ++ ub, set_idx (idx st + length cs) st).
 Proof.
   induction cs as [|ch cs IH]; intros fuel st ub post Ho Hst Hs Hi Hf; (destruct fuel as [|f]; [cbn in Hf; lia|]).
-  - cbn [app] in Hs. cbn [atom_loop rev app length]. fold len. rewrite Nat.add_0_r, set_idx_same.
-    destruct (Nat.leb len (idx st)) eqn:L; [reflexivity|]. apply Nat.leb_gt in L.
+  - cbn [app] in Hs. cbn [atom_loop rev app length]. fold len. rewrite Nat.add_0_r.
+    destruct (Nat.leb len (idx st)) eqn:L; [rewrite set_idx_same; reflexivity|]. apply Nat.leb_gt in L.
     destruct post as [|c t]; [apply skipn_nil_len in Hs; lia|].
-    destruct (stops_tests c t Hst) as [Hbs Hsel].
+    destruct Hst as [Hp|(e & t' & E & He)].
+    2:{ (* at a class escape: the scanner calls escape() twice and hands back the state it started with *)
+      injection E as -> ->.
+      destruct (skipn_step _ _ _ Hs) as [Hs1 Hlt]. destruct (skipn_step _ _ _ Hs1) as [_ Hlt1].
+      replace (Nat.ltb (idx st + 1) len) with true by (symmetry; apply Nat.ltb_lt; lia).
+      rewrite (at_skipn (idx st + 1)), Hs1. cbn [hd_error].
+      rewrite (is_at_hd _ _ _ c_bslash Hs). change (92 =? c_bslash)%N with true. cbv iota.
+      rewrite (escape_class st e t' He Hs). cbn [rbind].
+      set (st_r := {| idx := idx st; parens := parens (adv 2 st); bmin := bmin (adv 2 st); bmax := bmax (adv 2 st);
+                      captures := captures (adv 2 st); hasbr := hasbr (adv 2 st) |}).
+      assert (HsR : skipn (idx st_r) pat = 92%N :: e :: t') by exact Hs.
+      match goal with |- (if ?b then _ else _) = _ => destruct b end; [reflexivity|].
+      rewrite (at_skipn (idx st_r)), HsR. cbn [hd_error].
+      change (92 =? c_rbrack)%N with false. change (92 =? c_dot)%N with false. change (92 =? c_lbrack)%N with false.
+      change (92 =? c_lparen)%N with false. change (92 =? c_rparen)%N with false. change (92 =? c_bar)%N with false.
+      change (is_quant 92%N) with false. change (92 =? c_rbrace)%N with false. change (92 =? c_bslash)%N with true.
+      cbn [orb]. cbv iota. rewrite (escape_class st_r e t' He HsR). reflexivity. }
+    rewrite set_idx_same.
+    destruct (stops_tests c Hp) as [Hbs Hsel].
     assert (Hb : is_at pat (idx st) c_bslash = false) by (rewrite (is_at_hd _ _ _ _ Hs); exact Hbs).
     assert (Tail : (match at_ pat (idx st) with
               | None => Panic 35
@@ -403,7 +443,8 @@ Proof.
     + rewrite at_skipn, Hs1, Hb.
       assert (Hq : match (cs ++ post) with [] => True | c :: _ => is_quant c = false end).
       { destruct cs as [|c2 cs2]; cbn [app].
-        - destruct post as [|c2 t2]; auto. cbn in Hst. destruct Hst as [->|[->|[->|[->|(_ & [->| ->])]]]]; reflexivity.
+        - destruct post as [|c2 t2]; auto. cbn in Hst. destruct Hst as [[->|[->|[->|[->|(_ & [->| ->])]]]]|(e & t' & E & _)]; try reflexivity.
+          injection E as -> _. reflexivity.
         - cbn [forallb] in Ho. apply andb_true_iff in Ho as [Oc2 _]. apply ordinary_not_quant. exact Oc2. }
       destruct (cs ++ post) as [|c2 t2]; cbn [hd_error].
       * apply skipn_nil_len in Hs1; [|lia]. apply Nat.ltb_lt in L1. lia.
@@ -625,7 +666,7 @@ Proof. reflexivity. Qed.
 
 (* --- a run of ordinary characters is one piece --- *)
 Lemma stops_head_fine post : stops post -> head_fine post.
-Proof. destruct post as [|c t]; cbn; auto. intros [H|[H|[H|[H|(_ & [H|H])]]]]; auto 10. Qed.
+Proof. destruct post as [|c t]; cbn; auto. intros [[H|[H|[H|[H|(_ & [H|H])]]]]|(e & t' & E & _)]; auto 12. injection E as -> _. auto 12. Qed.
 
 Lemma skipn_len_le i (x y : list N) : skipn i pat = x ++ y -> i <= len -> i + length x + length y = len.
 Proof.
@@ -978,82 +1019,117 @@ Proof.
   apply (lowers_order input ci multi false K (fl_of ci multi single) eq_refl eq_refl); auto; destruct eol; cbn; auto.
 Qed.
 
-(* --- a dot, possibly quantified --- *)
+(* --- a dot or a class escape, possibly quantified --- *)
 Definition dset : cset := if single then all else dot_set.
-Definition dop (q : option (qk * bool)) : op :=
-  match q with Some (k, rel) => qopr (OCls dset) k rel | None => OCls dset end.
+Definition aset (da : datom) : cset := match da with ADot => dset | AE e => esc_set e end.
+Definition dop (da : datom) (q : option (qk * bool)) : op :=
+  match q with Some (k, rel) => qopr (OCls (aset da)) k rel | None => OCls (aset da) end.
 
+Lemma scalar_le c : is_scalar c = true -> (c <= max_cp)%N.
+Proof.
+  unfold is_scalar. intros H. apply orb_true_iff in H as [H|H].
+  - apply N.ltb_lt in H. unfold max_cp. clear - H. lia.
+  - apply andb_true_iff in H as [_ H]. apply N.leb_le in H. exact H.
+Qed.
 Lemma dset_spec c : In c input -> mem dset c = dot_mem (fl_of ci multi single) c.
 Proof.
-  intros Hc. apply Hvalid in Hc. unfold dset, dot_mem. cbn [s_s fl_of]. destruct single; cbn [orb].
+  intros Hc. apply Hvalid, scalar_le in Hc. unfold dset, dot_mem. cbn [s_s fl_of]. destruct single; cbn [orb].
   - apply mem_all. exact Hc.
   - apply dot_spec. exact Hc.
 Qed.
-
-Lemma piece_dot f st q rest : okqq xpath q = true -> head_fine rest ->
-  skipn (idx st) pat = 46%N :: qtext q ++ rest -> idx st <= len ->
-  exists st', piece pat xpath ci single (S (S f)) st = Ok (dop q, st') /\ st_after (1 + length (qtext q)) st st'.
+Lemma dleaf da : okat da = true ->
+  exists pr, leaf_pred ci (fl_of ci multi single) (da_re da) = Some pr /\ forall c, In c input -> mem (aset da) c = pr c.
 Proof.
-  intros Hk Hh Hs Hi. destruct (skipn_step _ _ _ Hs) as [Hs1 Hlt].
-  rewrite piece_S, parse_terminal_S, (at_skipn (idx st)), Hs. cbn [hd_error].
-  change (46 =? c_dollar)%N with false. change (46 =? c_caret)%N with false. change (46 =? c_dot)%N with true.
-  cbn [andb]. cbv iota. cbn [rbind]. fold dset.
+  intros Ha. destruct da as [|e]; cbn [da_re aset leaf_pred]; eexists; (split; [reflexivity|]).
+  - exact dset_spec.
+  - intros c Hc. apply esc_set_spec; [exact Ha|apply Hvalid; exact Hc].
+Qed.
+
+
+Lemma piece_dot f st da q rest : okat da = true -> okqq xpath q = true -> head_fine rest ->
+  skipn (idx st) pat = datext da ++ qtext q ++ rest -> idx st <= len ->
+  exists st', piece pat xpath ci single (S (S f)) st = Ok (dop da q, st')
+              /\ st_after (length (datext da) + length (qtext q)) st st'.
+Proof.
+  intros Ha Hk Hh Hs Hi.
+  (* the terminal *)
+  assert (T : parse_terminal pat xpath ci single (S f) st = Ok (OCls (aset da), adv (length (datext da)) st)).
+  { destruct da as [|e]; cbn [datext app length aset] in *.
+    - rewrite parse_terminal_S, (at_skipn (idx st)), Hs. cbn [hd_error].
+      change (46 =? c_dollar)%N with false. change (46 =? c_caret)%N with false. change (46 =? c_dot)%N with true.
+      cbn [andb]. reflexivity.
+    - rewrite parse_terminal_S, (at_skipn (idx st)), Hs. cbn [hd_error].
+      change (92 =? c_dollar)%N with false. change (92 =? c_caret)%N with false. change (92 =? c_dot)%N with false.
+      change (92 =? c_lbrack)%N with false. change (92 =? c_lparen)%N with false. change (92 =? c_rparen)%N with false.
+      change (92 =? c_bar)%N with false. change (92 =? c_rbrack)%N with false. change (is_quant 92%N) with false.
+      change (92 =? c_bslash)%N with true. cbn [andb]. cbv iota.
+      rewrite (escape_class st e _ Ha Hs). reflexivity. }
+  rewrite piece_S, T. cbn [rbind].
+  set (la := length (datext da)) in *.
+  assert (Hs1 : skipn (idx (adv la st)) pat = qtext q ++ rest).
+  { unfold adv, set_idx. cbn [idx]. subst la. apply skipn_app_len. exact Hs. }
+  assert (Hi1 : idx (adv la st) <= len).
+  { unfold adv, set_idx. cbn [idx]. pose proof (skipn_length (idx st) pat) as L. rewrite Hs in L. fold len in L.
+    rewrite app_length in L. fold la in L. lia. }
   destruct q as [[k rel]|]; cbn [qtext dop okqq] in *.
   - apply andb_true_iff in Hk as [Hx Hk].
-    destruct (quantify_fixed1 (OCls dset) k rel (adv 1 st) rest eq_refl eq_refl eq_refl Hx Hk Hh) as (st' & E & A1 & A2 & A3 & A4).
-    + unfold adv, set_idx. cbn [idx]. rewrite Hs1. cbn [app]. rewrite <- app_assoc. reflexivity.
-    + unfold adv, set_idx. cbn [idx]. lia.
+    destruct (quantify_fixed1 (OCls (aset da)) k rel (adv la st) rest eq_refl eq_refl eq_refl Hx Hk Hh) as (st' & E & A1 & A2 & A3 & A4).
+    + rewrite Hs1. cbn [app]. rewrite <- app_assoc. reflexivity.
+    + exact Hi1.
     + exists st'. split; [exact E|]. unfold adv, set_idx in *. cbn [idx parens hasbr captures] in *.
       unfold st_after. cbn [length]. rewrite app_length. destruct rel; cbn [length] in *; repeat split; try lia; assumption.
-  - exists (adv 1 st). split.
-    + apply quantify_none; [unfold adv, set_idx; cbn [idx]; lia|]. unfold adv, set_idx. cbn [idx]. rewrite Hs1. exact Hh.
+  - exists (adv la st). split.
+    + apply quantify_none; [exact Hi1|]. rewrite Hs1. exact Hh.
     + unfold st_after, adv, set_idx. cbn [idx parens hasbr captures length]. repeat split; lia.
 Qed.
 
-Lemma dcls_one p : R (OCls dset) p = [] \/ R (OCls dset) p = [p + N.to_nat 1].
+Lemma dcls_one da p : R (OCls (aset da)) p = [] \/ R (OCls (aset da)) p = [p + N.to_nat 1].
 Proof.
   unfold R. cbn [Rop]. destruct (nth_error input p); [|left; reflexivity].
-  destruct (mem dset n0); [right; change (N.to_nat 1) with 1; rewrite Nat.add_1_r; reflexivity|left; reflexivity].
+  destruct (mem (aset da) n0); [right; change (N.to_nat 1) with 1; rewrite Nat.add_1_r; reflexivity|left; reflexivity].
 Qed.
-Lemma dop_good q : good (dop q).
+Lemma dop_good da q : good (dop da q).
 Proof.
   unfold good. destruct q as [[k rel]|]; cbn [dop]; [|exact I].
-  assert (H : forall p m, In m (Rop input ci multi (OCls dset) p) -> m = p + N.to_nat 1).
-  { intros p m Hm. destruct (dcls_one p) as [E|E]; unfold R in E; rewrite E in Hm; [destruct Hm|destruct Hm as [<-|[]]; reflexivity]. }
+  assert (H : forall p m, In m (Rop input ci multi (OCls (aset da)) p) -> m = p + N.to_nat 1).
+  { intros p m Hm. destruct (dcls_one da p) as [E|E]; unfold R in E; rewrite E in Hm; [destruct Hm|destruct Hm as [<-|[]]; reflexivity]. }
   unfold qopr. destruct rel; cbn [simple]; (split; [exact I|split; [reflexivity|exact H]]).
 Qed.
-Lemma dleaf : exists pr, leaf_pred ci (fl_of ci multi single) RDot = Some pr /\ forall c, In c input -> mem dset c = pr c.
-Proof. eexists. split; [reflexivity|]. exact dset_spec. Qed.
-Lemma dop_sem q p m : okqq xpath q = true -> p <= n -> (In m (R (dop q) p) <-> In m (Dd input ci multi single q p)).
+Lemma da_wf da : quant_wf (da_re da).
+Proof. destruct da; exact I. Qed.
+Lemma dop_sem da q p m : okat da = true -> okqq xpath q = true -> p <= n ->
+  (In m (R (dop da q) p) <-> In m (Dd input ci multi single da q p)).
 Proof.
-  intros Hk Hp. unfold R, Dd.
+  intros Ha Hk Hp. unfold R, Dd.
   apply (lowersq_ends input ci multi false K (fl_of ci multi single) eq_refl eq_refl Hfit); auto.
   - (* plainq *) destruct q as [[k rel]|]; cbn [dop]; [|exact I].
     cbn [okqq] in Hk. apply andb_true_iff in Hk as [_ Hk]. destruct (okq_facts k Hk) as (Pos & Le & Mx & Wf & _).
-    assert (H : forall p0 q0, In q0 (Rop input ci multi (OCls dset) p0) -> q0 = p0 + N.to_nat 1).
-    { intros p0 q0 Hq0. destruct (dcls_one p0) as [E|E]; unfold R in E; rewrite E in Hq0; [destruct Hq0|destruct Hq0 as [<-|[]]; reflexivity]. }
+    assert (H : forall p0 q0, In q0 (Rop input ci multi (OCls (aset da)) p0) -> q0 = p0 + N.to_nat 1).
+    { intros p0 q0 Hq0. destruct (dcls_one da p0) as [E|E]; unfold R in E; rewrite E in Hq0; [destruct Hq0|destruct Hq0 as [<-|[]]; reflexivity]. }
     unfold qopr. destruct rel; cbn [plainq]; (split; [exact I|]); (split; [reflexivity|]);
       (split; [exact Pos|]); (split; [exact Le|exact H]).
-  - destruct q as [[k rel]|]; cbn [dot_re quant_wf]; [|exact I]. split; [exact I|].
+  - destruct q as [[k rel]|]; cbn [dot_re quant_wf]; [|apply da_wf]. split; [apply da_wf|].
     cbn [okqq] in Hk. apply andb_true_iff in Hk as [_ Hk]. apply (okq_facts k Hk).
   - destruct q as [[k rel]|]; cbn [dop dot_re].
     + cbn [okqq] in Hk. apply andb_true_iff in Hk as [_ Hk]. destruct (okq_facts k Hk) as (_ & _ & Mx & _ & _).
-      unfold qopr. destruct rel; cbn [lowersq unnc negb]; [exists RDot, false|exists RDot, true];
-        (split; [rewrite Mx; reflexivity|]); exact dleaf.
-    + cbn [lowersq unnc]. exact dleaf.
+      unfold qopr. destruct rel; cbn [lowersq unnc negb]; [exists (da_re da), false|exists (da_re da), true];
+        (split; [rewrite Mx; reflexivity|]); replace (unnc (da_re da)) with (da_re da) by (destruct da; reflexivity);
+        exact (dleaf da Ha).
+    + cbn [lowersq]. replace (unnc (da_re da)) with (da_re da) by (destruct da; reflexivity). exact (dleaf da Ha).
 Qed.
-Lemma dop_eq q p : okqq xpath q = true -> p <= n -> R (dop q) p = DdO input ci multi single q p.
+Lemma dop_eq da q p : okat da = true -> okqq xpath q = true -> p <= n -> R (dop da q) p = DdO input ci multi single da q p.
 Proof.
-  intros Hk Hp. unfold R, DdO. symmetry.
+  intros Ha Hk Hp. unfold R, DdO. symmetry.
   apply (lowerso_order input ci multi false K (fl_of ci multi single) eq_refl eq_refl Hfit); auto.
   - destruct q as [[k rel]|]; cbn [dop]; [|exact I].
     cbn [okqq] in Hk. apply andb_true_iff in Hk as [_ Hk]. destruct (okq_facts k Hk) as (Pos & Le & Mx & Wf & _).
     unfold qopr. destruct rel; cbn [plaino]; (split; [exact I|]); (split; [reflexivity|]);
-      (split; [exact Pos|]); (split; [exact Le|exact dcls_one]).
+      (split; [exact Pos|]); (split; [exact Le|exact (dcls_one da)]).
   - destruct q as [[k rel]|]; cbn [dop dot_re].
     + cbn [okqq] in Hk. apply andb_true_iff in Hk as [_ Hk]. destruct (okq_facts k Hk) as (_ & _ & Mx & _ & _).
-      unfold qopr. destruct rel; cbn [lowerso unnc negb]; exists RDot; (split; [rewrite Mx; reflexivity|]); exact dleaf.
-    + cbn [lowerso unnc]. exact dleaf.
+      unfold qopr. destruct rel; cbn [lowerso unnc negb]; exists (da_re da); (split; [rewrite Mx; reflexivity|]);
+        replace (unnc (da_re da)) with (da_re da) by (destruct da; reflexivity); exact (dleaf da Ha).
+    + cbn [lowerso]. replace (unnc (da_re da)) with (da_re da) by (destruct da; reflexivity). exact (dleaf da Ha).
 Qed.
 
 Lemma good_choice bs : Forall good bs -> good (OChoice bs).
@@ -1134,7 +1210,7 @@ Definition P_a (a : alt) : Prop :=
 
 (* a run (possibly empty) before a group: parsed into the current term, the loop goes on *)
 Lemma run_prefix cs post st cur fuel : forallb ordinary cs = true ->
-  (exists c t, post = c :: t /\ (c = 40%N \/ c = 46%N \/ (xpath = true /\ (c = 94%N \/ c = 36%N)))) ->
+  (exists c t, post = c :: t /\ (c = 40%N \/ c = 46%N \/ (xpath = true /\ (c = 94%N \/ c = 36%N)) \/ estop (c :: t))) ->
   skipn (idx st) pat = cs ++ post -> idx st <= len -> 3 <= fuel -> goodo cur ->
   exists fuel' cur1 st1, fuel <= fuel' + 1 /\ fuel' <= fuel
     /\ branch_loop pat xpath ci single fuel st cur = branch_loop pat xpath ci single fuel' st1 cur1
@@ -1144,7 +1220,7 @@ Lemma run_prefix cs post st cur fuel : forallb ordinary cs = true ->
     /\ (forall p, p <= n -> Ro cur1 p = flat_map (lit input ci cs) (Ro cur p)).
 Proof.
   intros Ho (c1 & t & -> & Hc1) Hs Hi Hf Hg.
-  assert (Hst1 : stops (c1 :: t)) by (cbn; destruct Hc1 as [->|[->|(Hx & Hc1)]]; auto 10).
+  assert (Hst1 : stops (c1 :: t)) by (cbn; unfold pstop; destruct Hc1 as [->|[->|[(Hx & Hc1)|He]]]; auto 10).
   destruct cs as [|c cs].
   - exists fuel, cur, st. split; [lia|]. split; [lia|]. split; [reflexivity|]. split; [cbn [length]; lia|].
     split; [reflexivity|]. split; [exact Hg|].
@@ -1211,7 +1287,7 @@ Proof.
     + destruct fuel as [|[|[|f]]]; try lia.
       pose proof Hok as Ho'. cbn [forallb] in Ho'. apply andb_true_iff in Ho' as [Oc _].
       destruct (ordinary_tests c Oc) as (T1 & T2 & T3 & T4 & T5 & T6 & T7 & T8 & T9 & T10 & T11 & T12 & T13 & T14).
-      assert (Hst : stops post) by (destruct Ht as [->|(t & [->| ->])]; cbn; auto).
+      assert (Hst : stops post) by (destruct Ht as [->|(t & [->| ->])]; cbn; unfold pstop; auto 10).
       exists (push cur (OAtom (c :: cs))), (set_idx (idx st + length (c :: cs)) st).
       split.
       { rewrite branch_loop_S. fold len. destruct (skipn_step _ _ _ Hs) as [_ Hlt].
@@ -1411,8 +1487,8 @@ Proof.
     assert (Hlen : idx st + (length cs + (1 + (length rest + length post))) = len).
     { pose proof (skipn_length (idx st) pat) as L. rewrite Hs in L. fold len in L.
       rewrite app_length in L. cbn [length] in L. rewrite app_length in L. lia. }
-    assert (Hfol : exists c t, (if eol then 36%N else 94%N) :: rest ++ post = c :: t /\ (c = 40%N \/ c = 46%N \/ (xpath = true /\ (c = 94%N \/ c = 36%N)))).
-    { exists (if eol then 36%N else 94%N), (rest ++ post). split; [reflexivity|]. right. right. split; [exact Hx|]. destruct eol; auto. }
+    assert (Hfol : exists c t, (if eol then 36%N else 94%N) :: rest ++ post = c :: t /\ (c = 40%N \/ c = 46%N \/ (xpath = true /\ (c = 94%N \/ c = 36%N)) \/ estop (c :: t))).
+    { exists (if eol then 36%N else 94%N), (rest ++ post). split; [reflexivity|]. right. right. left. split; [exact Hx|]. destruct eol; auto. }
     destruct (run_prefix cs ((if eol then 36%N else 94%N) :: rest ++ post) st cur fuel Ocs Hfol Hs Hi ltac:(lia) Hg)
       as (fuel1 & cur1 & st1 & Hf1 & Hf1' & Eloop & Hi1 & Hb1 & Hg1 & Sem1 & Hp1 & Fr1 & Eq1).
     rewrite Eloop.
@@ -1453,62 +1529,68 @@ Proof.
       exists m. split; [|exact Hq]. apply push_sem; auto using anchor_good. exists m1. split.
       * apply (Sem1 p m1 Hp). eauto.
       * apply anchor_sem; [|exact Hm]. apply (lit_le input ci cs m0 m1) in Hm1. lia.
-  - (* BD *) intros cs q b' IHb Hok post st cur fuel Hs Hi Ht Hf Hg.
-    cbn [ok_b] in Hok. apply andb_true_iff in Hok as [Hok Okb]. apply andb_true_iff in Hok as [Ocs Hkq].
+  - (* BD *) intros cs da q b' IHb Hok post st cur fuel Hs Hi Ht Hf Hg.
+    cbn [ok_b] in Hok. apply andb_true_iff in Hok as [Hok Okb]. apply andb_true_iff in Hok as [Hok Hkq].
+    apply andb_true_iff in Hok as [Ocs Hda].
     cbn [show_b] in Hs, Hf |- *.
-    set (rest := show_b b') in *. set (qt := qtext q) in *.
-    assert (Lsh : length (cs ++ 46%N :: qt ++ rest) = length cs + 1 + length qt + length rest) by (rewrite app_length; cbn [length]; rewrite app_length; lia).
+    set (rest := show_b b') in *. set (qt := qtext q) in *. set (at_ := datext da) in *.
+    assert (Lat : 1 <= length at_ <= 2) by (subst at_; destruct da; cbn; lia).
+    assert (Lsh : length (cs ++ at_ ++ qt ++ rest) = length cs + length at_ + length qt + length rest) by (rewrite !app_length; lia).
     rewrite Lsh in Hf |- *.
-    assert (Hs' : skipn (idx st) pat = cs ++ 46%N :: qt ++ rest ++ post).
-    { rewrite Hs, <- app_assoc. cbn [app]. rewrite <- app_assoc. reflexivity. }
+    assert (Hs' : skipn (idx st) pat = cs ++ at_ ++ qt ++ rest ++ post).
+    { rewrite Hs, <- !app_assoc. reflexivity. }
     clear Hs. rename Hs' into Hs.
-    assert (Hlen : idx st + (length cs + (1 + (length qt + (length rest + length post)))) = len).
+    assert (Hlen : idx st + (length cs + (length at_ + (length qt + (length rest + length post)))) = len).
     { pose proof (skipn_length (idx st) pat) as L. rewrite Hs in L. fold len in L.
-      rewrite app_length in L. cbn [length] in L. rewrite !app_length in L. lia. }
-    assert (Hfol : exists c t, 46%N :: qt ++ rest ++ post = c :: t /\ (c = 40%N \/ c = 46%N \/ (xpath = true /\ (c = 94%N \/ c = 36%N)))).
-    { eexists _, _. split; [reflexivity|]. auto. }
-    destruct (run_prefix cs (46%N :: qt ++ rest ++ post) st cur fuel Ocs Hfol Hs Hi ltac:(lia) Hg)
+      rewrite !app_length in L. lia. }
+    assert (Hfol : exists c t, at_ ++ qt ++ rest ++ post = c :: t /\ (c = 40%N \/ c = 46%N \/ (xpath = true /\ (c = 94%N \/ c = 36%N)) \/ estop (c :: t))).
+    { subst at_. destruct da as [|e]; cbn [datext app]; eexists _, _; (split; [reflexivity|]); [auto|].
+      right. right. right. exists e, (qt ++ rest ++ post). split; [reflexivity|exact Hda]. }
+    destruct (run_prefix cs (at_ ++ qt ++ rest ++ post) st cur fuel Ocs Hfol Hs Hi ltac:(lia) Hg)
       as (fuel1 & cur1 & st1 & Hf1 & Hf1' & Eloop & Hi1 & Hb1 & Hg1 & Sem1 & Hp1 & Fr1 & Eq1).
     rewrite Eloop.
     pose proof (skipn_app_len _ _ _ Hs) as Hs1. rewrite <- Hi1 in Hs1.
     assert (Hi1' : idx st1 <= len) by lia.
     destruct fuel1 as [|[|[|f]]]; try lia.
+    assert (Hhd : exists c0 t0, at_ ++ qt ++ rest ++ post = c0 :: t0 /\ (c0 =? c_bar)%N = false /\ (c0 =? c_rparen)%N = false).
+    { subst at_. destruct da; cbn [datext app]; eexists _, _; repeat split; reflexivity. }
+    destruct Hhd as (c0 & t0 & E0 & Nb & Nr). rewrite E0 in Hs1.
     destruct (skipn_step _ _ _ Hs1) as [_ Hlt1].
     assert (Hh : head_fine (rest ++ post)) by (apply (head_fine_b xpath); auto).
     rewrite branch_loop_S. fold len.
     replace (Nat.ltb (idx st1) len) with true by (symmetry; apply Nat.ltb_lt; exact Hlt1).
-    rewrite (is_at_hd _ _ _ c_bar Hs1), (is_at_hd _ _ _ c_rparen Hs1).
-    change (46 =? c_bar)%N with false. change (46 =? c_rparen)%N with false. cbn [negb andb].
-    destruct (piece_dot f st1 q (rest ++ post) Hkq Hh Hs1 Hi1') as (st2 & Ep & Hi2 & Hp2 & Hb2 & _).
-    rewrite Ep. cbn [rbind]. fold (push cur1 (dop q)). fold qt in Hi2.
+    rewrite (is_at_hd _ _ _ c_bar Hs1), (is_at_hd _ _ _ c_rparen Hs1), Nb, Nr. cbn [negb andb].
+    rewrite <- E0 in Hs1.
+    destruct (piece_dot f st1 da q (rest ++ post) Hda Hkq Hh Hs1 Hi1') as (st2 & Ep & Hi2 & Hp2 & Hb2 & _).
+    rewrite Ep. cbn [rbind]. fold (push cur1 (dop da q)). fold qt at_ in Hi2.
     assert (Hs2 : skipn (idx st2) pat = rest ++ post).
-    { rewrite Hi2. replace (1 + length qt) with (length (46%N :: qt)) by reflexivity.
-      apply (skipn_app_len (idx st1) (46%N :: qt)). rewrite Hs1. reflexivity. }
-    destruct (IHb Okb post st2 (push cur1 (dop q)) (S (S f)) Hs2 ltac:(lia) Ht ltac:(fold rest; lia)
-                (push_good _ _ Hg1 (dop_good q)))
+    { rewrite Hi2. replace (length at_ + length qt) with (length (at_ ++ qt)) by (rewrite app_length; reflexivity).
+      apply (skipn_app_len (idx st1) (at_ ++ qt)). rewrite Hs1, <- app_assoc. reflexivity. }
+    destruct (IHb Okb post st2 (push cur1 (dop da q)) (S (S f)) Hs2 ltac:(lia) Ht ltac:(fold rest; lia)
+                (push_good _ _ Hg1 (dop_good da q)))
       as (r & st' & E & Hi' & Hb' & Gr & Sem' & Fr' & Eq').
     exists r, st'. split; [exact E|]. fold rest in Hi'. split; [lia|].
     split; [rewrite Hb', Hb2; exact Hb1|]. split; [exact Gr|].
     split.
     2:{ split.
         - intros H1 Hfr.
-          assert (Fq : framed (dop q)) by (destruct q as [[k rel]|]; [unfold dop, qopr; destruct rel; exact I|exact I]).
+          assert (Fq : framed (dop da q)) by (destruct q as [[k rel]|]; [unfold dop, qopr; destruct rel; exact I|exact I]).
           destruct (Fr' ltac:(lia) (push_fr _ _ (Fr1 Hfr) Fq)) as [Fr Hp'].
           split; [exact Fr|]. lia.
-        - intros p Hp. rewrite (Eq' p Hp), (push_eq cur1 (dop q) p Hg1 (dop_good q)), (Eq1 p Hp). cbn [DbO].
+        - intros p Hp. rewrite (Eq' p Hp), (push_eq cur1 (dop da q) p Hg1 (dop_good da q)), (Eq1 p Hp). cbn [DbO].
           rewrite !flat_map_assoc. apply fm_ext_in. intros m Hm. rewrite <- flat_map_assoc. f_equal.
-          apply fm_ext_in. intros k0 Hk0. apply dop_eq; [exact Hkq|]. apply lit_le in Hk0. tauto. }
+          apply fm_ext_in. intros k0 Hk0. apply dop_eq; [exact Hda|exact Hkq|]. apply lit_le in Hk0. tauto. }
     intros p m Hp. rewrite (Sem' p m Hp). cbn [Db]. split.
     + intros (m2 & Hm2 & Hq). apply push_sem in Hm2; auto using dop_good. destruct Hm2 as (m1 & Hm1 & Hm2).
       apply (Sem1 p m1 Hp) in Hm1. destruct Hm1 as (m0 & Hm0 & Hm1).
       exists m0. split; [exact Hm0|]. apply in_flat_map. exists m2. split; [|exact Hq].
       apply in_flat_map. exists m1. split; [exact Hm1|].
-      apply dop_sem; [exact Hkq| |exact Hm2]. apply (lit_le input ci cs m0 m1) in Hm1. lia.
+      apply dop_sem; [exact Hda|exact Hkq| |exact Hm2]. apply (lit_le input ci cs m0 m1) in Hm1. lia.
     + intros (m0 & Hm0 & Hq). apply in_flat_map in Hq. destruct Hq as (m2 & Hm2 & Hq).
       apply in_flat_map in Hm2. destruct Hm2 as (m1 & Hm1 & Hm2).
       exists m2. split; [|exact Hq]. apply push_sem; auto using dop_good. exists m1. split.
       * apply (Sem1 p m1 Hp). eauto.
-      * apply dop_sem; [exact Hkq| |exact Hm2]. apply (lit_le input ci cs m0 m1) in Hm1. lia.
+      * apply dop_sem; [exact Hda|exact Hkq| |exact Hm2]. apply (lit_le input ci cs m0 m1) in Hm1. lia.
   - (* AOne *) intros b IHb Hok post st acc f1 f2 Hs Hi Ht Hf1 Hf2 Hacc. cbn [show_a ok_a] in *.
     destruct f1 as [|f1]; [lia|]. destruct f2 as [|f2]; [lia|].
     assert (Htb : term_b post) by (destruct Ht as [->|(t & ->)]; [left; auto|right; eauto]).
@@ -1584,9 +1666,9 @@ Lemma DqO_le c k rel p q : okq k = true -> p <= n -> In q (DqO input ci multi si
 Proof.
   intros Hk Hp H. rewrite <- qop_eq in H by assumption. eapply (Rop_le_n input ci multi false K); [apply qop_good|exact Hp|exact H].
 Qed.
-Lemma DdO_le q0 p q : okqq xpath q0 = true -> p <= n -> In q (DdO input ci multi single q0 p) -> q <= n.
+Lemma DdO_le da q0 p q : okat da = true -> okqq xpath q0 = true -> p <= n -> In q (DdO input ci multi single da q0 p) -> q <= n.
 Proof.
-  intros Hk Hp H. rewrite <- dop_eq in H by assumption. eapply (Rop_le_n input ci multi false K); [apply dop_good|exact Hp|exact H].
+  intros Ha Hk Hp H. rewrite <- dop_eq in H by assumption. eapply (Rop_le_n input ci multi false K); [apply dop_good|exact Hp|exact H].
 Qed.
 Lemma DanO_le (eol : bool) p q : p <= n -> In q (DanO input ci multi single eol p) -> q <= n.
 Proof.
@@ -1610,10 +1692,11 @@ Proof.
     cbn [DbO] in H. apply in_flat_map in H as (m & Hm & H).
     apply in_flat_map in Hm as (m1 & Hm1 & Hm). apply lit_le in Hm1. eapply (IHb Okb); [|exact H].
     rewrite <- anchor_eq in Hm by tauto. eapply (Rop_le_n input ci multi false K); [apply anchor_good| |exact Hm]. tauto.
-  - intros cs q0 b IHb Hok p q Hp H. cbn [ok_b] in Hok. apply andb_true_iff in Hok as [Hok Okb].
-    apply andb_true_iff in Hok as [_ Hkq]. cbn [DbO] in H. apply in_flat_map in H as (m & Hm & H).
+  - intros cs da q0 b IHb Hok p q Hp H. cbn [ok_b] in Hok. apply andb_true_iff in Hok as [Hok Okb].
+    apply andb_true_iff in Hok as [Hok Hkq]. apply andb_true_iff in Hok as [_ Hda].
+    cbn [DbO] in H. apply in_flat_map in H as (m & Hm & H).
     apply in_flat_map in Hm as (m1 & Hm1 & Hm). apply lit_le in Hm1. eapply (IHb Okb); [|exact H].
-    eapply DdO_le; [exact Hkq| |exact Hm]. tauto.
+    eapply DdO_le; [exact Hda|exact Hkq| |exact Hm]. tauto.
   - intros b IHb Hok p q Hp H. exact (IHb Hok p q Hp H).
   - intros b IHb a IHa Hok p q Hp H. cbn [ok_a] in Hok. apply andb_true_iff in Hok as [Okb Oka].
     cbn [DaO] in H. apply in_app_iff in H as [H|H]; eauto.
